@@ -79,7 +79,9 @@ CHECKS = {
     "C19": ("proof", "Lean 4 refinement proofs (HTAB = abstract map incl. termination of probing, bitmap = set algebra incl. change flag and aliasing, VARR/DLIST = lists) + exhaustive and random correspondence on the real headers",
             "PROVED for every operation history: bitmap operations yield the set-algebra result and report 'changed' exactly when the destination changed (also for aliased operands), the iterator yields the members "
             "once in increasing order, VARR and DLIST preserve contents and order with the list invariants; HTAB part: see Props/C19/Htab.lean. Correspondence: real headers under ASan+UBSan and NDEBUG, "
-            "exhaustive short sequences over small universes plus long random histories, colliding hash functions, free-function counts.",
+            "exhaustive short sequences over small universes plus long random histories, colliding hash functions, free-function counts. Consumer of the flags: solve_dataflow (mir-gen.c) is modelled "
+            "(Model/Dataflow.lean) and solve_fixpoint proves that with flags that never under-report the solver stops only at a solution of the dataflow equations, for every CFG, transfer function and visiting order "
+            "(termination not proved); the function's text is cut from mir-gen.c on every run, compiled over the real headers and compared (visiting trace, final sets) with the model on random union/intersection, forward/backward problems.",
             TB, "4 C19"),
     "C01": ("proof", "Lean 4 theorems about the optimizer's tables, rewrites and decision predicates (regenerated from mir-gen.c/mir.c/mir.h) + differential execution of random well-defined programs across interpreter and -O0..-O3",
             "PROVED for all operand values: GVN constant folding = interpreter macro = documented result for every integer opcode; the folder never evaluates a "
